@@ -215,10 +215,14 @@ package cdi
 //@   pure
 //@   requires s != nil && s.Spec != nil
 //@   ensures[C05] iff(err == nil, old(SpecOK(s)))
+//@   ensures[C05,C01] implies(err == nil, forall(n, string, has(devices, n), devices[n] != nil && fresh(devices[n]) &&
+//@                        devices[n].Device != nil && devices[n].spec == s && devices[n].Name == n))
 //@   ensures[C05] implies(err == nil, devices != nil && fresh(devices) && len(devices) == len(s.Devices) &&
 //@                        forall(k, 0 <= k && k < len(s.Devices), has(devices, old(s.Devices[k].Name))) &&
 //@                        forall(n, string, has(devices, n), exists(k, 0 <= k && k < len(s.Devices), old(s.Devices[k].Name) == n)))
 //@   loop 1 invariant forall(k, 0 <= k && k < #i, old(DeviceOK(val(&s.Devices[k])))) && old(DistinctNames(s.Spec, #i))
+//@   loop 1 invariant forall(n, string, has(devices, n), devices[n] != nil && fresh(devices[n]) &&
+//@                        devices[n].Device != nil && devices[n].spec == s && devices[n].Name == n)
 //@   loop 1 invariant len(devices) == #i && forall(k, 0 <= k && k < #i, has(devices, old(s.Devices[k].Name)))
 //@   loop 1 invariant forall(n, string, has(devices, n), exists(k, 0 <= k && k < #i, old(s.Devices[k].Name) == n))
 
@@ -240,6 +244,7 @@ package cdi
 //@   requires raw != nil
 //@   ensures[C05] iff(err == nil, (specValidator == nil || ExtOK(raw)) && old(RawSpecOK(raw)))
 //@   ensures[C05] implies(err != nil, spec == nil)
+//@   ensures[C05,C01] implies(err == nil, SpecObjWF(spec))
 //@   ensures[C05,C01] implies(err == nil, spec != nil && fresh(spec) && spec.Spec == raw && spec.priority == priority &&
 //@                        spec.devices != nil && fresh(spec.devices) && len(spec.devices) == len(raw.Devices) &&
 //@                        forall(k, 0 <= k && k < len(raw.Devices), has(spec.devices, old(raw.Devices[k].Name))) &&
@@ -439,3 +444,91 @@ package cdi
 // run by sync.Once.Do from the public default-cache functions, which do not hold the mutex
 //@ func getOrCreateDefaultCache$1()
 //@   requires !held
+
+
+// ---------------------------------------------------------------- cache.go refresh, spec-dirs.go scanSpecDirs (C01, C13)
+
+// A Spec object as newSpec builds it.
+//@ pred SpecObjWF(s *Spec) = s != nil && s.Spec != nil && s.devices != nil &&
+//@        forall(n, string, has(s.devices, n), s.devices[n] != nil && s.devices[n].Device != nil &&
+//@               s.devices[n].spec == s && s.devices[n].Name == n)
+
+// The oracle of C01 as a ghost fold over the scanned valid Spec files, per qualified name q:
+// maxP[q] = highest priority of a valid Spec defining q so far (-1: none), cnt[q] = number of Spec files
+// defining q at that priority, first[q] = the first definition seen at that priority.
+//@ ghostglobal maxP strintmap
+//@ ghostglobal cnt strintmap
+//@ ghostglobal first strrefmap
+// scanMark: allocation watermark taken when a scan starts; Spec objects handed to the scan function
+// are created later (hence distinct from the maps of the index being built).
+//@ ghostglobal scanMark int
+
+//@ fn QualName(d *Device) = d.spec.vendor + "/" + d.spec.class + "=" + d.Name
+//@ pred DevObjWF(d *Device) = d != nil && d.Device != nil && d.spec != nil && d.spec.Spec != nil
+//@ pred ScanInv(devices map[string]*Device, conflicts map[string]struct{}) = devices != nil && conflicts != nil &&
+//@        own(devices) <= scanMark &&
+//@        forall(q, string, true, cnt[q] >= 0 && maxP[q] >= -1 && (cnt[q] == 0) == (maxP[q] == -1) &&
+//@               has(devices, q) == (cnt[q] >= 1) && has(conflicts, q) == (cnt[q] >= 2) &&
+//@               implies(cnt[q] >= 1, devices[q] == first[q] && DevObjWF(cast(first[q], *Device)) &&
+//@                       cast(first[q], *Device).spec.priority == maxP[q]))
+//@ pred ErrInv(m map[string][]error) = m != nil && forall(k, string, has(m, k), len(m[k]) >= 1 && own(m[k]) <= allocNow() &&
+//@        forall(i, 0 <= i && i < len(m[k]), m[k][i] != nil))
+
+//@ func (c *Cache) refresh$1(err error, paths []string)
+//@   requires err != nil
+//@   invariant ErrInv(specErrors)
+//@   modifies *specErrors, allelems([]error)
+//@   ensures forall(k, string, true, has(specErrors, k) == (old(has(specErrors, k)) || exists(i, 0 <= i && i < len(paths), paths[i] == k)))
+//@   loop 1 invariant ErrInv(specErrors)
+//@   loop 1 invariant forall(k, string, true, has(specErrors, k) == (old(has(specErrors, k)) || exists(i, 0 <= i && i < #i, paths[i] == k)))
+
+//@ func (c *Cache) refresh$2(name string, dev *Device, old *Device) (r bool)
+//@   requires DevObjWF(dev) && DevObjWF(old) && conflicts != nil
+//@   invariant ErrInv(specErrors)
+//@   modifies *specErrors, allelems([]error), *conflicts
+//@   ensures[C01] r == !(dev.spec.priority > old.spec.priority)
+//@   ensures[C01] forall(k, string, true, has(conflicts, k) == ite(k == name, (old(has(conflicts, k)) && !(dev.spec.priority > old.spec.priority)) || dev.spec.priority == old.spec.priority, old(has(conflicts, k))))
+
+//@ func (c *Cache) refresh$3(path string, priority int, spec *Spec, err error) (r error)
+//@   requires priority >= 0
+//@   requires (spec != nil) == (err == nil)
+//@   requires implies(spec != nil, SpecObjWF(spec) && spec.priority == priority && own(spec.devices) > scanMark)
+//@   invariant ScanInv(devices, conflicts)
+//@   invariant ErrInv(specErrors) && specs != nil
+//@   ghostwrites maxP, cnt, first
+//@   modifies *specs, allelems([]*Spec), *devices, *conflicts, *specErrors, allelems([]error)
+//@   ensures[C13] r == nil
+//@   ensures[C13] implies(err != nil, has(specErrors, Clean(path)))
+//@   ghost at loop 1 body end: cnt = ite(priority > maxP[qualified], store(cnt, qualified, 1), ite(priority == maxP[qualified], store(cnt, qualified, cnt[qualified] + 1), cnt))
+//@   ghost at loop 1 body end: first = ite(priority > maxP[qualified], store(first, qualified, dev), first)
+//@   ghost at loop 1 body end: maxP = ite(priority > maxP[qualified], store(maxP, qualified, priority), maxP)
+//@   loop 1 invariant ScanInv(devices, conflicts)
+//@   loop 1 invariant ErrInv(specErrors) && specs != nil
+//@   loop 1 invariant SpecObjWF(spec) && spec.priority == priority && own(spec.devices) > scanMark
+
+// What scanSpecDirs promises its callback type: a valid Spec created for this call, or the error.
+//@ functype scanSpecFunc(path string, priority int, spec *Spec, err error) (r error)
+//@   requires priority >= 0
+//@   requires (spec != nil) == (err == nil)
+//@   requires implies(spec != nil, SpecObjWF(spec) && spec.priority == priority && own(spec.devices) > scanMark)
+//@   ensures[C13] r == nil
+
+//@ func ReadSpec(path string, priority int) (spec *Spec, err error)
+//@   pure
+//@   ensures[C13] (spec != nil) == (err == nil)
+//@   ensures[C01] implies(spec != nil, SpecObjWF(spec) && spec.priority == priority && fresh(spec) && fresh(spec.devices))
+
+//@ func ParseSpec(data []byte) (raw *cdi.Spec, err error)
+//@   trusted
+//@   pure
+//@   ensures implies(raw != nil, fresh(raw))
+
+//@ func scanSpecDirs$1(path string, info os.FileInfo, err error) (r error)
+//@   invariant scanFn != nil && priority >= 0 && scanMark <= allocNow()
+//@   ensures[C13] r == nil || r == filepath.SkipDir
+
+//@ func scanSpecDirs(dirs []string, scanFn scanSpecFunc) (err error)
+//@   applies scanFn
+//@   requires scanFn != nil && scanMark <= allocNow()
+//@   ensures[C13] err == nil
+//@   loop 1 invariant scanFn != nil && scanMark <= allocNow()
